@@ -47,7 +47,11 @@ func SortVersions(vs []Version) {
 			// Does this make any sense at all?
 			return vs[i].Version < vs[j].Version
 		}
-		return vi.Compare(vj) < 0
+		if c := vi.Compare(vj); c != 0 {
+			return c < 0
+		}
+		// Distinct strings may denote the same version (1.0, 1.0.0).
+		return vs[i].Version < vs[j].Version
 	})
 }
 
